@@ -142,24 +142,19 @@ Proof.
 Qed.
 
 Lemma two_vars a x y (ts:list mmterm) :
-  listN_eqb (mand_float_vars d a) [x; y] = true -> length ts = length (metavars_in_order d a) ->
+  mand_float_vars d a = [x; y] -> length ts = length (metavars_in_order d a) ->
   metavars_in_order d a = [x; y] /\ x <> y /\ exists t1 t2, ts = [t1; t2].
 Proof.
   intros HL L.
   assert (E: metavars_in_order d a = [x; y]).
-  { rewrite <- (mand_vars_order d HPF d a eq_refl). unfold mand_float_vars in HL.
-    destruct (map (fun f : label * N * N => snd f) (mand_floats d a)) as [|x' [|y' [|? ?]]]; simpl in HL; try discriminate.
-    - destruct (N.eqb x' x); discriminate.
-    - apply andb_true_iff in HL as [H1 H2]. apply andb_true_iff in H2 as [H2 _].
-      apply N.eqb_eq in H1, H2. subst. reflexivity.
-    - apply andb_true_iff in HL as [_ H2]. apply andb_true_iff in H2 as [_ H2]. discriminate. }
+  { rewrite <- (mand_vars_order d HPF d a eq_refl). exact HL. }
   split; [exact E|]. split.
-  - assert (ND: NoDup (metavars_in_order d a)) by (apply mio_NoDup; assumption). rewrite E in ND. inversion ND; subst. intros ->. apply H1. left. reflexivity.
+  - assert (ND: NoDup (metavars_in_order d a)) by (apply mio_NoDup; assumption). rewrite E in ND.
+    inversion ND; subst. intros ->. apply H1. left. reflexivity.
   - rewrite E in L. destruct ts as [|t1 [|t2 [|? ?]]]; try discriminate. exists t1, t2. reflexivity.
 Qed.
 
 Lemma ctor_bin_sim (c:N) (oi:oinstr) (mk:pat->pat->pat) a ctx ms ms' mh t :
-  (forall l r st, iruns Proof [oi] (set_stack (TPat r :: TPat l :: st) (mkst [] [] [])) <> None) ->
   (forall st l r s, stack st = TPat r :: TPat l :: s -> iruns Proof [oi] st = Some (set_stack (TPat (mk l r) :: s) st)) ->
   (forall a b, im (TApp c [a; b]) = mk (im a) (im b)) ->
   floats ctx = floats d ->
@@ -167,13 +162,15 @@ Lemma ctor_bin_sim (c:N) (oi:oinstr) (mk:pat->pat->pat) a ctx ms ms' mh t :
   Inv ms mh t -> apply_assertion ctx a ms = Some ms' ->
   exists t', do [oi] t = Some t' /\ Inv ms' mh t' /\ steps_to t t'.
 Proof.
-  intros _ HRun HImg EF EE ET HB I HA.
+  intros HRun HImg EF EE ET HB I HA.
   destruct (apply_inv d HPF ctx a ms ms' EF HA) as [ts [rest [L [E1 E2]]]].
   unfold binary_ctor_ok in HB.
-  destruct (a_stmt a) as [tc [|[v|c' [|[x|? ?] [|[y|? ?] [|? ?]]]] [|? ?]]] eqn:ES; try discriminate.
-  apply andb_true_iff in HB as [HC HL]. apply N.eqb_eq in HC. subst c'. simpl in ET. subst tc.
-  destruct (two_vars a x y ts HL L) as [EM [NE [t1 [t2 ->]]]].
-  rewrite EE in E1. simpl in E1. rewrite EM in E2. unfold ssubst in E2. simpl in E2.
+  destruct (mand_float_vars d a) as [|x [|y [|? ?]]] eqn:EMF; try discriminate.
+  assert (ES: a_stmt a = (tc_pattern, [TApp c [TVar x; TVar y]])).
+  { destruct (a_stmt a) as [tc l]. simpl in ET, HB. subst tc. f_equal.
+    eapply forallb2_eq; [|exact HB]. apply Forall_forall. intros u _ w. apply mterm_eqb_eq. }
+  destruct (two_vars a x y ts EMF L) as [EM [NE [t1 [t2 ->]]]].
+  rewrite EE in E1. simpl in E1. rewrite EM, ES in E2. unfold ssubst in E2. simpl in E2.
   rewrite N.eqb_refl in E2.
   assert (NE': N.eqb x y = false) by (apply N.eqb_neq; exact NE). rewrite NE', N.eqb_refl in E2.
   pose proof (inv_stack _ _ _ _ _ _ I) as HSt. rewrite E1 in HSt.
